@@ -279,6 +279,15 @@ func H15_Core() {
 	}
 	b, err := bl.Build()
 	verif.Assume(err == nil)
+	if outcome == 5 && verif.Bool("othersreport") {
+		// the supported blocks around the unknown one carry the report flag themselves (which asks for nothing: a
+		// supported block is processed) - the unknown block's own flags alone decide
+		for i := range b.CanonicalBlocks {
+			if b.CanonicalBlocks[i].TypeCode() != 222 {
+				b.CanonicalBlocks[i].BlockControlFlags |= bpv7.StatusReportBlock
+			}
+		}
+	}
 	if outcome == 6 {
 		// created two hours ago with a lifetime of one hour (handed up by a convergence layer that does not judge lifetimes)
 		b.PrimaryBlock.CreationTimestamp = bpv7.NewCreationTimestamp(bpv7.DtnTimeFromTime(time.Now().Add(-2*time.Hour)), 0)
